@@ -329,16 +329,40 @@ def blocks_for(tier):
     return out
 
 
+# High-precision stratum at large heights (added after a seeded change was missed): the Newton refinement ladder of
+# separate_my_zero only has several levels for precisions above ~200 bits, and its guard bits only matter for t >~ 2^14.
+HP_WINDOWS = [(17900, 20050), (29950, 30050), (49950, 50050), (99950, 100050)]
+HP_PRECS = [210, 250, 333, 432]
+
+
+def hp_cases(tier, seed):
+    import random
+    r = random.Random('C41-hp:%s' % seed)
+    out = []
+    nq = 6 if tier == 'quick' else 48
+    for i in range(nq):
+        a, b = HP_WINDOWS[0] if (tier == 'quick' or i % 2 == 0) else HP_WINDOWS[1 + (i // 2) % 3]
+        # mostly the two highest precisions (several refinement levels); window ends are always included
+        pp = HP_PRECS[3 - (i % 4 == 3) - 2 * (i % 8 == 5)] if i % 2 == 0 else HP_PRECS[2 + (i % 4 == 1)]
+        n = [b - 51, a + 100][i] if i < 2 else r.randint(a, b)
+        out.append([n, pp])
+    return out
+
+
 def shards(tier, seed):
     bl = blocks_for(tier)
     k = 16
+    hp = hp_cases(tier, seed)
     if tier == 'quick':
-        return [{'blocks': [b]} for b in bl]
+        return [{'blocks': [b]} for b in bl] + [{'blocks': [], 'hp': hp[:3]}, {'blocks': [], 'hp': hp[3:]}]
     # thorough: blocks dealt round-robin (cost grows slowly with t); the windows above 10^4 are spread as well
     out = [{'blocks': []} for _ in range(k)]
     for i, b in enumerate(bl):
         out[i % k]['blocks'].append(b)
-    return [s for s in out if s['blocks']]
+    out = [s for s in out if s['blocks']]
+    for j in range(0, len(hp), 6):
+        out.append({'blocks': [], 'hp': hp[j:j + 6]})
+    return out
 
 
 # ---------------------------------------------------------------------------------------
@@ -780,11 +804,19 @@ def run_shard(shard, rec):
                            'mpmath.functions.zetazeros:zetazero', 'mpmath.functions.zeta:grampoint']):
         for n0, n1 in shard['blocks']:
             check_block(mp, rec, r, shard['tier'], n0, n1)
+        for n, pp in shard.get('hp', []):
+            # accuracy of the ordinate at high precision and large height (index: same zero as at 53 bits)
+            mp.prec = 53
+            g53 = to_fraction(mp.zetazero(n).imag)
+            check_other_prec(mp, rec, ZOracle(), n, pp, g53)
+            rec.event('high-precision zeros checked (t > 2^14, prec > 200)', 1)
 
 
 def required(agg, tier):
     miss = []
     ev = agg['events']
+    if not ev.get('high-precision zeros checked (t > 2^14, prec > 200)', 0):
+        miss.append('no high-precision zero at large height was checked')
     nb = ev.get('blocks swept', 0)
     if not nb:
         miss.append('no block swept')
